@@ -56,6 +56,10 @@ def run(chk: harness.Check):
     d3_formula(chk, F)
     d4_lineage(chk, F)
     c13.d3_servings(chk, F)
+    # scaling fits the scaled quantity (scale.rs → Quantity::fit → fit_fraction): "multiplied by f as a physical amount
+    # (whatever unit it is then fitted to)" needs both ends of a re-expressed range converted to the new unit
+    import c09
+    c09.d5_fit_range(chk, F, rule="C08.D5-fit-range")
     if chk.tier == "thorough":
         import thorough
         ok, n, out = thorough.witnesses()
